@@ -129,7 +129,7 @@ def r2_sanity_test(ctx):
                 return quant, "neg"
             if isinstance(op, (ast.Gt, ast.GtE)) and xn in names_in(l) and bname and bname in names_in(r):
                 c, p = monomial(r)
-                if c == 1 and set(p) == {bname, "1 + rtol"} or (c == 1 and set(p) == {bname}):
+                if c == 1 and all(e == {"1": 1} for e in p.values()) and set(p) in ({bname, "1 + rtol"}, {bname}):
                     return quant, "over"
                 return quant, "over?"
         return quant, None
